@@ -199,10 +199,25 @@ def update_rule(F, R):
             if st[0] == "=" and st[1][0] == 1 and len(st[1][1]) == 2 and st[1][1][0] == "*" and st[1][1][1][0] == "f" and st[2][0] == "use":
                 stores.setdefault(st[1][1][1][2], []).append(strip_sites(b.origin(st[2][1])))
     lu = stores.get("last_updated", [])
-    ok_lu = len(lu) == 1 and lu[0] == ("param", 3)
-    R.ob("FLOW-update", "update(): last_updated := now (the parameter itself, one store)", ok_lu, True,
-         {"rule": "FLOW-update", "stores": [fmt(x, 160) for x in lu]})
-    if not ok_lu:
+    def _lu_ok(t):
+        if t == ("param", 3):
+            return True
+        # monotone form max(self.last_updated, now)
+        if t[0] == "call" and re.search(r"::max$", t[1]) and len(t[2]) == 2:
+            a, c = t[2]
+            for (x, y) in ((a, c), (c, a)):
+                yy = y
+                while isinstance(yy, tuple) and yy and yy[0] in ("ref", "deref"):
+                    yy = yy[2] if yy[0] == "ref" else yy[1]
+                if x == ("param", 3) and yy[0] == "field" and yy[2] == "last_updated":
+                    return True
+        return False
+    ok_lu = len(lu) == 1 and _lu_ok(lu[0])
+    undecided = len(lu) == 1 and not ok_lu and "param:3" in tokens(lu[0]) and not any(n[0] == "call" and re.search(r"::min$", n[1]) for n in walk(lu[0])) \
+        and not any(n[0] == "bin" for n in walk(lu[0]))
+    R.ob("FLOW-update", "update(): last_updated := now (the parameter itself or max(last_updated, now), one store)%s" % (" — form not recognised, not decided" if undecided else ""),
+         ok_lu or undecided, not undecided, {"rule": "FLOW-update", "stores": [fmt(x, 160) for x in lu]})
+    if not ok_lu and not undecided:
         R.violation("FLOW-update", UPDATE + "/last_updated",
                     "ReliabilityScore::update stores last_updated := %s instead of the `now` the penalty was applied at: the next "
                     "score(now') decays the fresh penalty by the wrong age, so a failure reported long after the path was fetched "
@@ -263,14 +278,35 @@ def _reads_hops(F, p, depth=2, seen=None):
     return False
 
 
+def _reads_endpoints(F, p, depth=2, seen=None):
+    seen = seen if seen is not None else set()
+    if p in seen or depth < 0:
+        return False
+    seen.add(p)
+    b = F.body(p)
+    if b is None:
+        return False
+    for c in b.calls:
+        nm = c.callee or ""
+        if re.search(r"ScionPath::(src_ia|dst_ia|source|destination|src|dst|src_isd_asn|dst_isd_asn)$", nm):
+            return True
+        if nm.startswith("scion_stack::") and _reads_endpoints(F, nm, depth - 1, seen):
+            return True
+    for bb in sorted(b.live_blocks()):
+        for st in b.stmts(bb):
+            if re.search(r"'(src_ia|dst_ia|source|destination)'", str(st)):
+                return True
+    return False
+
+
 def precheck_rule(F, R):
     """GS-precheck: `matches_path_checked(.., might_include_check)` returns false for an Interface target as soon as the
     pre-check says no, before the interface list is scanned.  The transit ASes of a path are recorded only in
     `metadata.interfaces`; a stateless pre-check (fn item or capture-less closure) that can answer false without reading
     them decides from the target and the path's endpoints alone and necessarily skips some path that crosses the reported
     AS in the middle — the report then matches nothing, no penalty is applied and the active path is kept.  Decided:
-    constant-true pre-checks (accepted), stateless pre-checks that never read the hop list (violation).  Pre-checks that
-    read the hop list or capture state are listed as not decided."""
+    constant-true pre-checks (accepted), stateless pre-checks that read the path's endpoints (src_ia/dst_ia) but never
+    the hop list (violation).  Pre-checks that read the hop list, capture state, or read neither are listed as not decided."""
     sites = [(p, c) for (p, c) in T.call_sites(F, lambda n: n == MPC, crates=["scion_stack"])]
     R.floor("GS-precheck", len(sites), 1, "matches_path_checked call sites")
     for (p, c) in sites:
@@ -296,7 +332,11 @@ def precheck_rule(F, R):
             R.ob("GS-precheck", "pre-check %s reads the hop list — soundness not decided" % short(target), True, False,
                  {"rule": "GS-precheck", "site": p, "precheck": target, "verdict": "reads hops, not decided"})
             continue
-        R.ob("GS-precheck", "pre-check %s can answer false without reading the hop list" % short(target), False, True,
+        if not _reads_endpoints(F, target):
+            R.ob("GS-precheck", "pre-check %s reads neither the hop list nor the path's endpoints — not decided" % short(target), True, False,
+                 {"rule": "GS-precheck", "site": p, "precheck": target, "verdict": "stateless, no endpoints, not decided"})
+            continue
+        R.ob("GS-precheck", "pre-check %s can answer false from the path's endpoints without reading the hop list" % short(target), False, True,
              {"rule": "GS-precheck", "site": p, "precheck": target, "verdict": "violation"})
         R.violation("GS-precheck", p + "/precheck",
                     "%s passes %s as might_include_check: it can answer false without reading metadata.interfaces, the only record of "
